@@ -232,6 +232,13 @@ def run_case(driver, script, rng, use_z3=True, what=("df", "excel", "gantt", "js
                     diffs.append(f"json buffer {nm}")
             if js["indicators"] != solution.indicators or js["horizon"] != solution.horizon:
                 diffs.append("json indicators / horizon")
+            # definitions of the tasks and cost functions survive a JSON round trip
+            from harness import jsonrt
+            rt = jsonrt.round_trip_tasks(real.problem) + jsonrt.round_trip_costs(real.problem)
+            n += 1
+            if stats is not None:
+                stats["out_json_round_trips"] = stats.get("out_json_round_trips", 0) + len(real.problem.tasks) + len(real.problem.workers)
+            diffs += rt[:3]
         if "excel" in what and beyond_xlsx_columns(solution):
             # the xlsx format has 16 384 columns: later instants cannot be written (xlsxwriter ignores them)
             if stats is not None:
